@@ -9,6 +9,8 @@ import (
 	cid "github.com/ipfs/go-cid"
 	ipld "github.com/ipfs/go-ipld-format"
 	mh "github.com/multiformats/go-multihash"
+	mhcore "github.com/multiformats/go-multihash/core"
+	"hash"
 )
 
 // ---------------------------------------------------------------------------------------------------
@@ -27,6 +29,22 @@ func zzvNewServ() *zzvServ { return &zzvServ{m: map[cid.Cid]*dag.ProtoNode{}} }
 
 func (s *zzvServ) Get(ctx context.Context, c cid.Cid) (ipld.Node, error) {
 	n, ok := s.m[c]
+	if !ok && !zzvHashUF {
+		// blocks are stored by multihash: a request through another CID of the same multihash (CIDv0 / CIDv1
+		// alias) finds the block, and the node handed out carries the CID it was asked for (as
+		// DecodeProtobufBlock does)
+		for _, k := range s.order {
+			if string(k.Hash()) == string(c.Hash()) {
+				if st, ok2 := s.m[k]; ok2 {
+					cp := st.Copy().(*dag.ProtoNode)
+					if err := cp.SetCidBuilder(c.Prefix()); err != nil {
+						panic(err)
+					}
+					return cp, nil
+				}
+			}
+		}
+	}
 	if !ok {
 		return nil, ipld.ErrNotFound{Cid: c}
 	}
@@ -78,6 +96,15 @@ func (s *zzvServ) RemoveMany(ctx context.Context, cs []cid.Cid) error {
 }
 
 func zzvNewMemoryDagService() ipld.DAGService { return zzvNewServ() }
+
+// zzvGetHasher is the engine-side stand-in for multihash/core.GetVariableHasher (the registry is filled from
+// crypto/* constructors, which the engine does not run); only the error is looked at (ProtoNode.SetCidBuilder).
+func zzvGetHasher(code uint64, sizeHint int) (hash.Hash, error) {
+	if code == mh.SHA2_256 || code == mh.IDENTITY {
+		return nil, nil
+	}
+	return nil, mhcore.ErrSumNotSupported
+}
 
 // Under the engine multihash.Sum (crypto) is bound to this stub: the digest of an input is the index of its first
 // occurrence in a table of all inputs hashed so far — a function of the input, injective by construction.
@@ -181,7 +208,23 @@ func zzvBuild(ctx context.Context, s *zzvServ, t *zzvTree, fileData [][]byte) *d
 			continue
 		}
 		var child *dag.ProtoNode
-		if kind <= len(fileData) {
+		if kind == len(fileData) && verifrt.Param("ALIAS", 0) != 0 {
+			// the last file kind is file 1 again, linked through the CIDv1 alias of its multihash: the same
+			// block under another CID, so the parents differ although the children's bytes are equal
+			child = dag.NodeWithData(fileData[0])
+			if err := s.Add(ctx, child); err != nil {
+				panic(err)
+			}
+			lnk, err := ipld.MakeLink(child)
+			if err != nil {
+				panic(err)
+			}
+			lnk.Cid = cid.NewCidV1(cid.DagProtobuf, child.Cid().Hash())
+			if err := n.AddRawLink(zzvNames[k], lnk); err != nil {
+				panic(err)
+			}
+			continue
+		} else if kind <= len(fileData) {
 			child = dag.NodeWithData(fileData[kind-1])
 		} else {
 			child = zzvBuild(ctx, s, t.sub[k], fileData)
